@@ -123,6 +123,19 @@ func (o *OracleC02) OnOut(n *Node, st *Step, out *Out) {
 		}
 		if ok, why := o.matchesProposal(n, out.Hdr); !ok {
 			s.Violate("C02", "preblock_is_not_the_proposal", fmt.Sprintf("%s height %d: %s", n, out.Hdr.Idx, why), n.id)
+			return
+		}
+		if pb := n.lastPreBlockObj; pb != nil {
+			if len(pb.txs) != len(pb.TxHashes) {
+				s.Violate("C02", "preblock_transactions_mismatch", fmt.Sprintf("%s height %d: pre-block carries %d transactions for %d proposed hashes", n, pb.Idx, len(pb.txs), len(pb.TxHashes)), n.id)
+				return
+			}
+			for i, t := range pb.txs {
+				if t == nil || t.Hash() != pb.TxHashes[i] {
+					s.Violate("C02", "preblock_transactions_mismatch", fmt.Sprintf("%s height %d: transaction %d of the pre-block is missing or out of order", n, pb.Idx, i), n.id)
+					return
+				}
+			}
 		}
 	}
 }
